@@ -156,20 +156,21 @@ def field_accumulation(chk, repo, clause):
         if len(rets) != 1:
             raise AnalysisError(f'{key}: expected a single path')
         p = rets[0]
-        lps = [lp for lp in p.state.loops if lp['func'] == f.key]
         ok_zero = ok_only = False
         det = ''
-        if lps:
-            lp = lps[0]
-            pre = lp['pre'].get('out')
+        from .common import loop_accumulator
+        ins = [e for e in p.calls('field.insert')]
+        lp, var = loop_accumulator(p, ins[0].bound.get('out')) if ins else (None, None)
+        if lp is not None:
+            pre = lp['pre'].get(var)
             pa = pre.single_atom() if isinstance(pre, Poly) else None
             ok_zero = pa is not None and is_app(pa, 'zeros') and pa[2][0] in (nf.attr(S('self'), 'shape'),)
-            ins = [e for e in p.calls('field.insert')]
-            ok_only = len(ins) == 1 and ins[0].bound.get('out') == lp['phi'].get('out') and \
+            ok_only = len(ins) == 1 and ins[0].bound.get('out') == lp['phi'].get(var) and \
                 ins[0].bound.get('intensity') == intensity and \
                 all(isinstance(v, Poly) and v.single_atom() == ('app', 'call:field.insert', v.single_atom()[2])
-                    for ends in lp['ends'] for v in [ends.get('out')]) and \
-                isinstance(p.ret, Poly) and p.ret.single_atom() is not None and p.ret.single_atom()[0] == 'loop'
+                    for ends in lp['ends'] for v in [ends.get(var)]) and \
+                isinstance(p.ret, Poly) and p.ret.single_atom() is not None and p.ret.single_atom()[0] == 'loop' \
+                and p.ret.single_atom()[1] == lp['phi'][var].single_atom()[1]
             det = f'starts from {fmt(pre)}; {len(ins)} insert call(s)'
         chk.ob(clause, 'D-zero-init', key, 'accumulates into zeros(self.shape)', ok_zero, det, f.loc())
         chk.ob(clause, 'D-zero-init', key, f'the only contributions are insert(field, out, intensity={intensity!r})',
